@@ -5,14 +5,15 @@ import (
 	"go/constant"
 	"go/token"
 	"go/types"
+	"sort"
 
 	"golang.org/x/tools/go/ssa"
 )
 
 func init() {
-	register(&Rule{ID: "C13.R1", Props: []string{"C13"}, Engine: "E5b",
-		Title:   "receive checksum decision table (exhaustive, 32 scenarios): a packet is accepted iff (checksum≠0 ⇒ it matches) ∧ (checksum=0 ⇒ zero checksum acceptable here and the packet does not start with INIT/COOKIE-ECHO, or it matches)",
-		MinInst: 32,
+	register(&Rule{ID: "C13.R1", Props: []string{"C13", "C09"}, Engine: "E5b",
+		Title:   "receive checksum decision table (exhaustive over every chunk-type constant as first chunk, ≥100 scenarios): a packet is accepted iff (checksum≠0 ⇒ it matches) ∧ (checksum=0 ⇒ zero checksum acceptable here and the packet does not start with INIT/COOKIE-ECHO, or it matches)",
+		MinInst: 100,
 		Run: func(c *RuleCtx) {
 			pu := c.Fn("packet.unmarshal")
 			gen := c.Fn("generatePacketChecksum")
@@ -50,6 +51,20 @@ func init() {
 				typ     constant.Value
 			}
 			firsts := []first{{"INIT", true, ctInit.Val()}, {"COOKIE-ECHO", true, ctCE.Val()}, {"SACK", true, ctSack.Val()}, {"none", false, nil}}
+			// every other chunk type this package knows can start a packet too (ABORT, SHUTDOWN-COMPLETE, ... are
+			// emitted with a zero checksum once the peer accepts it, so the receiver must not insist on a CRC for them)
+			{
+				scope := c.P.Types.Scope()
+				names := scope.Names()
+				sort.Strings(names)
+				for _, n := range names {
+					k, ok := scope.Lookup(n).(*types.Const)
+					if !ok || typeShort(k.Type()) != "chunkType" || k == ctInit || k == ctCE || k == ctSack {
+						continue
+					}
+					firsts = append(firsts, first{n, true, k.Val()})
+				}
+			}
 			for _, doCk := range []bool{true, false} {
 				for _, fc := range firsts {
 					for _, field := range []int64{0, 5} {
